@@ -128,6 +128,8 @@ def run_shard(rec):
         idx += 1
         return idx % rec.nshards == rec.shard
 
+    if rec.shard == 0 and not other:
+        rt.run_suite_with_contracts(rec, ("C02",))
     # (d) targeted shapes
     for name, src in TARGETED.items():
         if not mine():
@@ -187,6 +189,8 @@ def run_shard(rec):
 
 
 def replay(case, rec):
+    if case.get("kind") == "suite":
+        return rt.run_suite_with_contracts(rec, ("C02",))
     src = case.get("src")
     if src is None:
         src = corpus.stripped_source(case["file"])
